@@ -147,8 +147,14 @@ pub fn run(ctx: &mut Ctx, _replay: Option<&[String]>) {
         let mg: Option<usize> = *rng.pick(&[None, None, Some(4), Some(6), Some(5)]);
         let gt = if mg.is_some() { rng.range(0, 30) } else { 0 };
         let uniform = rng.chance(1, 2);
-        let search = rng.chance(1, 4);
-        let trials = rng.range(1, 8) as u64;
+        let mut search = rng.chance(1, 4);
+        let mut trials = rng.range(1, 8) as u64;
+        // every fifth case: a seed search on a shape where (nearly) every seed needs backtracking to succeed, with a generous budget
+        let (nr, nc, wr, wc, bc, bt, mg, gt) = if k % 5 == 4 {
+            search = true; trials = rng.range(3, 6) as u64;
+            let (a, b, c, d) = *rng.pick(&[(8usize, 16usize, 6usize, 3usize), (6, 12, 6, 3), (8, 12, 6, 4)]);
+            (a, b, c, d, rng.range(2, 3), rng.range(30, 60), None, 0)
+        } else { (nr, nc, wr, wc, bc, bt, mg, gt) };
         let mut args: Vec<String> = vec!["mackay-neal".into(), nr.to_string(), nc.to_string(), wr.to_string(), wc.to_string(), seed.to_string(),
             "--backtrack-cols".into(), bc.to_string(), "--backtrack-trials".into(), bt.to_string(), "--girth-trials".into(), gt.to_string()];
         if let Some(g) = mg { args.push("--min-girth".into()); args.push(g.to_string()); }
